@@ -412,6 +412,8 @@ func TestFixed(t *testing.T) {
 	vh.Fixed(t, prop, "two-starts-race", Case{NTasks: 1, Batches: []Batch{{[]Req{ctl("START_ACTIVITY"), ctl("START_ACTIVITY")}}}}, vh.Confirmed(run))
 	vh.Fixed(t, prop, "start-then-stop-race", Case{NTasks: 2, Batches: []Batch{{[]Req{ctl("START_ACTIVITY"), ctl("STOP_ACTIVITY"), ctl("RESET")}}}}, vh.Confirmed(run))
 	vh.Fixed(t, prop, "two-destroys-race", Case{NTasks: 1, Batches: []Batch{{[]Req{ctl("RESET")}}, {[]Req{ctl("CONFIGURE"), {Kind: "destroy"}, {Kind: "destroy"}}}}}, vh.Confirmed(run))
+	// found at VERIF_SEED=2: two control requests wait behind a destroy; once it is DONE their failure path forced DONE -> ERROR
+	vh.Fixed(t, prop, "controls-queued-behind-destroy", Case{NTasks: 3, Batches: []Batch{{[]Req{{Kind: "destroy"}, ctl("STOP_ACTIVITY"), ctl("CONFIGURE")}}, {[]Req{ctl("START_ACTIVITY"), ctl("GO_ERROR")}}}}, vh.Confirmed(run))
 	vh.Fixed(t, prop, "failed-start", Case{NTasks: 2, Batches: []Batch{{[]Req{ctl("START_ACTIVITY")}}, {[]Req{ctl("STOP_ACTIVITY")}}}, Outcomes: []string{"taskfail"}}, vh.Confirmed(run))
 	vh.Fixed(t, prop, "hook-fails-then-requests", Case{NTasks: 1, Batches: []Batch{{[]Req{ctl("START_ACTIVITY")}}, {[]Req{ctl("START_ACTIVITY")}}, {[]Req{ctl("GO_ERROR")}}}, Outcomes: []string{"hookfail"}}, vh.Confirmed(run))
 }
